@@ -74,15 +74,15 @@ type mapUndo struct {
 
 // Interp is one worker's interpreter state.
 type Interp struct {
-	P       *ProgramCtx
-	globals []value // *value cells
-	steps   int64
-	budget  int64
-	depth   int
-	undo    []undoRec
-	mundo   []mapUndo
-	logging bool
-	ex      *Explorer // current path state (nil during init)
+	P        *ProgramCtx
+	globals  []value // *value cells
+	steps    int64
+	budget   int64
+	depth    int
+	undo     []undoRec
+	mundo    []mapUndo
+	logging  bool
+	ex       *Explorer // current path state (nil during init)
 	funcsRun map[*ssa.Function]struct{}
 	stack    []value
 	sp       int
